@@ -1,1 +1,192 @@
 //! Shared deployment helpers for the replay tests.
+//!
+//! The scenario structs of `margined_utils::scenarios` deploy exactly one vAMM with fixed
+//! reserves and keep their `contract_*()` wrappers private.  The witness scenarios need a
+//! second vAMM (F14a), a vAMM priced below 1 (F02a) and the *real* price feed (F07d), so the
+//! same wrappers are re-declared here around the real entry points of the /repo crates.
+
+use cosmwasm_std::{Addr, Empty, Uint128};
+use cw_multi_test::{App, Contract, ContractWrapper, Executor};
+use margined_perp::margined_pricefeed::InstantiateMsg as PricefeedInstantiateMsg;
+use margined_perp::margined_vamm::{
+    ExecuteMsg as VammExecuteMsg, InstantiateMsg as VammInstantiateMsg,
+};
+use margined_utils::contracts::helpers::{
+    InsuranceFundController, PricefeedController, VammController,
+};
+
+pub fn contract_vamm() -> Box<dyn Contract<Empty>> {
+    Box::new(ContractWrapper::new_with_empty(
+        margined_vamm::contract::execute,
+        margined_vamm::contract::instantiate,
+        margined_vamm::contract::query,
+    ))
+}
+
+/// The repository's own price feed (contracts/margined_pricefeed), NOT the mock.
+pub fn contract_real_pricefeed() -> Box<dyn Contract<Empty>> {
+    Box::new(ContractWrapper::new_with_empty(
+        margined_pricefeed::contract::execute,
+        margined_pricefeed::contract::instantiate,
+        margined_pricefeed::contract::query,
+    ))
+}
+
+pub fn contract_mock_pricefeed() -> Box<dyn Contract<Empty>> {
+    Box::new(ContractWrapper::new_with_empty(
+        mock_pricefeed::contract::execute,
+        mock_pricefeed::contract::instantiate,
+        mock_pricefeed::contract::query,
+    ))
+}
+
+/// Parameters of an additional vAMM.  Amounts are raw (already scaled by 10^decimals).
+#[derive(Clone, Debug)]
+pub struct VammParams {
+    pub decimals: u8,
+    pub quote_asset: String,
+    pub base_asset: String,
+    pub quote_asset_reserve: Uint128,
+    pub base_asset_reserve: Uint128,
+    pub funding_period: u64,
+    pub toll_ratio: Uint128,
+    pub spread_ratio: Uint128,
+    pub fluctuation_limit_ratio: Uint128,
+}
+
+impl VammParams {
+    /// Same market as `SimpleScenario` (9 decimals, 1000 quote / 100 base, no fees, no limit).
+    pub fn like_simple_scenario() -> Self {
+        VammParams {
+            decimals: 9,
+            quote_asset: "ETH".to_string(),
+            base_asset: "USD".to_string(),
+            quote_asset_reserve: Uint128::new(1_000_000_000_000),
+            base_asset_reserve: Uint128::new(100_000_000_000),
+            funding_period: 86_400,
+            toll_ratio: Uint128::zero(),
+            spread_ratio: Uint128::zero(),
+            fluctuation_limit_ratio: Uint128::zero(),
+        }
+    }
+}
+
+/// Instantiates a further vAMM owned by `owner`, wires it to `engine`, opens it and (if an
+/// insurance fund is given) registers it there, exactly like the scenario constructors do for
+/// their first vAMM.
+pub fn deploy_vamm(
+    router: &mut App,
+    owner: &Addr,
+    engine: &Addr,
+    insurance_fund: Option<&InsuranceFundController>,
+    pricefeed: &Addr,
+    params: &VammParams,
+    label: &str,
+) -> VammController {
+    let vamm_id = router.store_code(contract_vamm());
+    let vamm_addr = router
+        .instantiate_contract(
+            vamm_id,
+            owner.clone(),
+            &VammInstantiateMsg {
+                decimals: params.decimals,
+                quote_asset: params.quote_asset.clone(),
+                base_asset: params.base_asset.clone(),
+                quote_asset_reserve: params.quote_asset_reserve,
+                base_asset_reserve: params.base_asset_reserve,
+                funding_period: params.funding_period,
+                toll_ratio: params.toll_ratio,
+                spread_ratio: params.spread_ratio,
+                fluctuation_limit_ratio: params.fluctuation_limit_ratio,
+                pricefeed: pricefeed.to_string(),
+                margin_engine: None,
+                insurance_fund: insurance_fund.map(|f| f.addr().to_string()),
+            },
+            &[],
+            label,
+            None,
+        )
+        .unwrap();
+    let vamm = VammController(vamm_addr.clone());
+
+    router
+        .execute_contract(
+            owner.clone(),
+            vamm_addr,
+            &VammExecuteMsg::UpdateConfig {
+                base_asset_holding_cap: None,
+                open_interest_notional_cap: None,
+                toll_ratio: None,
+                spread_ratio: None,
+                fluctuation_limit_ratio: None,
+                margin_engine: Some(engine.to_string()),
+                insurance_fund: None,
+                pricefeed: None,
+                spot_price_twap_interval: None,
+            },
+            &[],
+        )
+        .unwrap();
+
+    let msg = vamm.set_open(true).unwrap();
+    router.execute(owner.clone(), msg).unwrap();
+
+    if let Some(fund) = insurance_fund {
+        let msg = fund.add_vamm(vamm.addr().to_string()).unwrap();
+        router.execute(owner.clone(), msg).unwrap();
+    }
+
+    vamm
+}
+
+/// Instantiates the repository's real price feed, owned by `owner`.
+pub fn deploy_real_pricefeed(router: &mut App, owner: &Addr) -> PricefeedController {
+    let id = router.store_code(contract_real_pricefeed());
+    let addr = router
+        .instantiate_contract(
+            id,
+            owner.clone(),
+            &PricefeedInstantiateMsg {
+                oracle_hub_contract: "oracle_hub0000".to_string(),
+            },
+            &[],
+            "real_pricefeed",
+            None,
+        )
+        .unwrap();
+    PricefeedController(addr)
+}
+
+/// Instantiates a further mock price feed, owned by `owner`.
+pub fn deploy_mock_pricefeed(router: &mut App, owner: &Addr) -> PricefeedController {
+    let id = router.store_code(contract_mock_pricefeed());
+    let addr = router
+        .instantiate_contract(
+            id,
+            owner.clone(),
+            &PricefeedInstantiateMsg {
+                oracle_hub_contract: "oracle_hub0000".to_string(),
+            },
+            &[],
+            "mock_pricefeed",
+            None,
+        )
+        .unwrap();
+    PricefeedController(addr)
+}
+
+/// Full error chain of a cw-multi-test failure as one string (outermost context first).
+pub fn error_chain(err: &anyhow::Error) -> String {
+    err.chain()
+        .map(|e| e.to_string())
+        .collect::<Vec<_>>()
+        .join(" | ")
+}
+
+/// Advances the chain by one block / `seconds` seconds.
+pub fn next_block(router: &mut App, seconds: u64) {
+    router.update_block(|block| {
+        block.time = block.time.plus_seconds(seconds);
+        block.height += 1;
+    });
+}
